@@ -102,9 +102,66 @@ def statements_payload(pd):
     return out
 
 
+class Refused(Exception):
+    """the library's classes refuse an object that is a policy document by a purely syntactic, library-independent reading"""
+    def __init__(self, node, got):
+        super().__init__(f"well-formed policy document recognised as {got}")
+        self.node, self.got = node, got
+
+
+_SAFE_OPS = {"StringEquals", "StringLike", "ArnLike", "StringNotEquals", "ArnEquals"}     # operators whose values are plain text
+_PRINCIPAL_KEYS = {"AWS", "Service", "Federated", "CanonicalUser"}
+
+
+def _str_or_strs(v):
+    return isinstance(v, str) or (isinstance(v, list) and all(isinstance(z, str) for z in v))
+
+
+def well_formed_statement(st):
+    if not isinstance(st, dict) or not set(st) <= {"Sid", "Effect", "Action", "NotAction", "Resource", "NotResource", "Principal",
+                                                    "NotPrincipal", "Condition"}:
+        return False
+    if not (isinstance(st.get("Effect"), str) and st["Effect"].lower() in ("allow", "deny")):
+        return False
+    if "Sid" in st and not isinstance(st["Sid"], str):
+        return False
+    for k in ("Action", "NotAction", "Resource", "NotResource"):
+        if k in st and not _str_or_strs(st[k]):
+            return False
+    for k in ("Principal", "NotPrincipal"):
+        if k in st:
+            p = st[k]
+            if not (_str_or_strs(p) or (isinstance(p, dict) and p and set(p) <= _PRINCIPAL_KEYS and all(_str_or_strs(z) for z in p.values()))):
+                return False
+    if "Condition" in st:
+        c = st["Condition"]
+        if not (isinstance(c, dict) and c and set(c) <= _SAFE_OPS
+                and all(isinstance(b, dict) and b and all(isinstance(k, str) and _str_or_strs(z) for k, z in b.items()) for b in c.values())):
+            return False
+    return True
+
+
+def well_formed_document(x):
+    """a SUFFICIENT, purely syntactic condition for "x is an IAM policy document" (what the generators plant): the library's
+    PolicyDocument class must accept every such object -- whatever its Sids look like.  The recogniser used by the model is
+    the library's own union (an oracle computed with the code under test: audit finding A2); this predicate is the part of it
+    that does not depend on that code."""
+    if not isinstance(x, dict) or "Statement" not in x or not set(x) <= {"Version", "Statement", "Id"}:
+        return False
+    if "Version" in x and x["Version"] not in ("2012-10-17", "2008-10-17"):
+        return False
+    if "Id" in x and not isinstance(x["Id"], str):
+        return False
+    body = x["Statement"]
+    sts = body if isinstance(body, list) else [body]
+    return all(well_formed_statement(st) for st in sts)
+
+
 def recognise(x):
     """TypeAdapter(Properties) on one object node in isolation -> [kind, dump, name, statements] or None"""
     inst = _try("props", x)
+    if well_formed_document(x) and type(inst).__name__ != "PolicyDocument":
+        raise Refused(x, type(inst).__name__)
     if inst is None:
         return None
     kind = type(inst).__name__
